@@ -211,6 +211,19 @@ def run(repo: Repo, tier: str) -> Report:
                       f"changes when a constant is added to the series")
         rep.ob("R-USESHAPE", k.file, name, "the input series is used only as mask test, solver argument, difference with or order comparison against a solver output",
                not bad and n_uses > 0, detail or f"{n_uses} uses", f"{name}: uses of the series `{y}`")
+    # ---- 2b. cells outside the mask hold a sanitised placeholder (0 / nodata) that does NOT shift with the offset:
+    #          commuting with offsets needs them weightless in every solve
+    n_mask = 0
+    for name in SELECTING + FIXED:
+        s = fam[name]
+        if s.mask is None:
+            continue
+        for sv in s.solves:
+            alts = s.factors(sv.weight, sv.seq)
+            n_mask += 1
+            rep.ob("R-MASK", s.file, name, f"solver weight `{sv.weight}` vanishes outside the validity mask (the placeholder there does not shift with the series)",
+                   bool(alts) and all(s.mask["name"] in a for a in alts), f"factor sets {[sorted(a) for a in alts]}; the mask is `{s.mask['name']}`", sv.stmt)
+    rep.floor("C06 solver calls", n_mask, 15)
     # ---- 3. reversal: V-curve criteria over the whole extent (re-uses the C04 extraction)
     sub = Report("C06")  # scratch
     import sa.core as core
